@@ -1,5 +1,6 @@
 import Drive.Json
 import PlaybackModel.Threads
+import PlaybackModel.ThreadsReplay
 /-! Line-protocol handler for the thread micro-step model (C04, interceptions in flight on worker threads). -/
 open Lean
 namespace Drive.Threads
@@ -37,6 +38,36 @@ def threadsH : Handler := fun j => do
       | .exc _ => jArr [Json.str "exc", Json.str "KeyError"]))))),
       ("done", Json.bool (sys'.workers.all (fun w => w.todo.isEmpty)))])
 
-def handlers : List (String × Handler) := [("c04.threads", threadsH)]
+/-- {"m":"c01.threads","threads":[[{"in":bool,"name":s,"arg":s,"res":s}..]..],"world":[[key,value]..],"s1":[tid..],"s2":[tid..]}
+-> what each thread's calls were handed while recording (schedule s1) and while replaying the recorded data (schedule s2),
+the recorded and the captured output arguments.  Both schedules are completed round-robin. -/
+def recordReplayH : Handler := fun j => do
+  let threadsJ ← arrField j "threads"
+  let progs ← mapM' (fun tj => do
+    mapM' (fun cj => do
+      .ok ({ isIn := ← boolField cj "in", name := ← strField cj "name", arg := ← strField cj "arg", res := ← strField cj "res" }
+            : PlaybackModel.ThreadsReplay.TCall)) (← asArr tj)) threadsJ
+  let worldL ← mapM' (fun kv => do match ← asArr kv with
+    | [k, v] => .ok ((← asStr k), (← asStr v))
+    | _ => .error "bad world entry") (← arrField j "world")
+  let w : String → String := fun k => (worldL.lookup k).getD "<no live value>"
+  let prog : Nat → List PlaybackModel.ThreadsReplay.TCall := fun t => (progs[t]?).getD []
+  let n := progs.length
+  let total := progs.foldl (fun acc l => acc + l.length) 0
+  let tail := (List.range ((total + 1) * (n + 1))).map (fun i => i % (n + 1))
+  let s1 ← mapM' asNat (← arrField j "s1")
+  let s2 ← mapM' asNat (← arrField j "s2")
+  let rec1 := PlaybackModel.ThreadsReplay.runRecord w prog (s1 ++ tail)
+  let rep := PlaybackModel.ThreadsReplay.runReplay (PlaybackModel.ThreadsReplay.get rec1.data) prog (s2 ++ tail)
+  let seenJ (st : PlaybackModel.ThreadsReplay.St) : Json :=
+    jArr ((List.range n).map (fun t => jArr ((st.seen t).reverse.map Json.str)))
+  let outsJ (d : PlaybackModel.ThreadsReplay.Data) : Json :=
+    jArr (d.filterMap (fun kv => match kv.1 with
+      | .outArgs t a k => some (jArr [jNat t, Json.str a, jNat k, Json.str kv.2])
+      | _ => Option.none))
+  .ok (jObj [("record", seenJ rec1), ("replay", seenJ rep), ("recorded", outsJ rec1.data), ("playback", outsJ rep.pb),
+             ("complete", Json.bool ((List.range n).all (fun t => rec1.pc t == (prog t).length && rep.pc t == (prog t).length)))])
+
+def handlers : List (String × Handler) := [("c04.threads", threadsH), ("c01.threads", recordReplayH)]
 
 end Drive.Threads
